@@ -346,8 +346,9 @@ def build_grid(case, trial=0):
     pmm = make_pmm_layout(sources, case['layout'])
     B.cfg, B.sources, B.shg_mgr, B.pmm = cfg, sources, shg_mgr, pmm
     axes = [BinningDefinition('x', GRID_EDGES)]
-    # 'edge_grid': the grid spans exactly the parameter range [VMIN, VMAX]: the bounds are the outermost grid points
-    gvals = np.around(VMIN + GRID_DELTA * np.arange(11), 1) if case.get('edge_grid') else GRID_VALUES
+    # 'edge_grid': the grid spans the parameter range [VMIN, VMAX] plus the one extra bin on each side that skyllh's PDF
+    # sets add (ParameterGrid.add_extra_lower_and_upper_bin): the bounds are the outermost legal grid points
+    gvals = np.around(VMIN - GRID_DELTA + GRID_DELTA * np.arange(13), 1) if case.get('edge_grid') else GRID_VALUES
     grid = ParameterGrid('gamma', gvals, delta=GRID_DELTA, decimals=1)
     pdfs = []
     for g in gvals:
@@ -431,7 +432,9 @@ def _i3_energy_inputs_build(cfg):
     sb = BinningDefinition('sin_dec', np.linspace(-1, 1, 5))
     eb = BinningDefinition('log_energy', np.linspace(1, 7, 7))
     flux = SteadyPointlikeFFM(Phi0=1, energy_profile=PowerLawEnergyFluxProfile(E0=1e3, gamma=2, cfg=cfg), cfg=cfg)
-    gam = Parameter('gamma', 2.0, 0.5, 3.0)
+    # range = [VMIN, VMAX]: SignalI3EnergyPDFSet adds one extra grid bin on each side itself, so the parameter bounds are
+    # the outermost legal grid points
+    gam = Parameter('gamma', 1.5, VMIN, VMAX)
     sigset = SignalI3EnergyPDFSet(cfg=cfg, data_mc=mc, log10_energy_binning=eb, sin_dec_binning=sb, fluxmodel=flux,
                                   param_grid_set=gam.as_linear_grid(delta=0.1), ncpu=1)
     bkg = DataBackgroundI3EnergyPDF(cfg=cfg, data_exp=exp, log10_energy_binning=eb, sin_dec_binning=sb)
